@@ -274,6 +274,10 @@ CompChoices(pv, fo, bodyparts) ==
 BetaChoices(pv, fo) == IF fo.beta THEN (IF V5Like(pv) THEN {TRUE} ELSE {TRUE, FALSE}) ELSE {FALSE}
 
 AllParts(k, pv, fo, o) == PayloadParts(fo) \o BodyParts(k, pv, o)
+\* Skip_metadata (0x02) is an optimisation hint the property does not name: drivers may decline to ask the server
+\* to leave out metadata (stale-metadata hazard before v5, CASSANDRA-10786).  A frame without the flag is accepted
+\* for a request with skip_meta; which form the driver sends is recorded by the check, not judged.
+SkipVariants(k, o) == IF k = "EXECUTE" /\ o.skip THEN {o, [o EXCEPT !.skip = FALSE]} ELSE {o}
 Frames(k, pv, fo, parts) ==
     UNION { UNION { { Header(pv, HeaderFlags(fo, cz, bt), fo.stream, Opcode(k), Len(IF cz THEN Comp(b) ELSE b))
                       \o (IF cz THEN Comp(b) ELSE b) : b \in Prod(parts) }
@@ -404,7 +408,9 @@ Next == /\ expect = "seed"
              /\ c' = [kind |-> k, pv |-> pv, var |-> c.var, fo |-> fo, o |-> o]
              /\ expect' = e
              /\ reasons' = ob
-             /\ alts' = IF e = "frame" THEN Frames(k, pv, fo, parts) ELSE {}
+             /\ alts' = IF e = "frame"
+                        THEN UNION {Frames(k, pv, fo, AllParts(k, pv, fo, ov)) : ov \in SkipVariants(k, o)}
+                        ELSE {}
              /\ layout' = IF e = "frame" THEN Layout(pv, fo, parts) ELSE <<>>
 Spec == Init /\ [][Next]_vars
 IsCase == expect # "seed"
@@ -424,10 +430,15 @@ LengthConsistent ==
         /\ h.stream = c.fo.stream
 
 \* "an independent specification parser reads back exactly the fields that were requested"
+\* (Skip_metadata may be left out, never invented - see SkipVariants)
+SameFields(k, parsed, req) ==
+    IF k \in {"QUERY", "EXECUTE"}
+    THEN [parsed EXCEPT !.skip = FALSE] = [req EXCEPT !.skip = FALSE] /\ (parsed.skip => req.skip)
+    ELSE parsed = req
 RoundTrip ==
     \A f \in alts : LET h == ParseFrame(c.kind, c.pv, f) IN
         /\ h.consumed                                          \* no byte left over
-        /\ h.o = Requested(c.kind, c.pv, c.o)
+        /\ SameFields(c.kind, h.o, Requested(c.kind, c.pv, c.o))
         /\ h.tracing = c.fo.tracing
         /\ h.payload = (IF IsSome(c.fo.payload) THEN Some(AsSet(The(c.fo.payload))) ELSE None)
         /\ (V5Like(c.pv) => h.beta = c.fo.beta) /\ (h.beta => c.fo.beta)
